@@ -230,11 +230,15 @@ func runC04Top(c *Ctx, wl *walkLayers) {
 
 // runC04Cache: when the type is analysed, time.Time fields are skipped and export is
 // IsExported(name) of the same field.
-func runC04Cache(c *Ctx) {
+func runC04Cache(c *Ctx) { runC04CacheRule(c, "C04-GUARD") }
+
+// runC04CacheRule: the per-type analysis records, for every field it keeps, the index of the very
+// field it read the name and the tag from (offset), skips time.Time and sets export = IsExported(name).
+func runC04CacheRule(c *Ctx, rule string) {
 	p := c.P
 	fn := p.Method("valid", "VStruct", "getCacheStructType")
 	if fn == nil {
-		c.Unk("C04-GUARD", "(*valid.VStruct).getCacheStructType", "analysis", token.NoPos, "type analysis function not found")
+		c.Unk(rule, "(*valid.VStruct).getCacheStructType", "analysis", token.NoPos, "type analysis function not found")
 		return
 	}
 	c.Funcs[fnName(fn)] = true
@@ -246,7 +250,7 @@ func runC04Cache(c *Ctx) {
 	stores := 0
 	for _, t := range trs {
 		if t.Cut != "" {
-			c.Unk("C04-GUARD", fnName(fn), "analysis", fn.Pos(), t.Cut)
+			c.Unk(rule, fnName(fn), "analysis", fn.Pos(), t.Cut)
 			return
 		}
 		for _, e := range t.Events {
@@ -290,7 +294,7 @@ func runC04Cache(c *Ctx) {
 			}
 		}
 	}
-	c.Check(len(bad) == 0 && stores > 0, "C04-GUARD", fnName(fn), "analysis", fn.Pos(), fmt.Sprintf("%d recording paths: time.Time skipped, export = IsExported(name), offset = index", stores), uniqJoin(append(bad, fmt.Sprintf("%d recording paths", stores)), 3))
+	c.Check(len(bad) == 0 && stores > 0, rule, fnName(fn), "analysis", fn.Pos(), fmt.Sprintf("%d recording paths: time.Time skipped, export = IsExported(name), offset = index", stores), uniqJoin(append(bad, fmt.Sprintf("%d recording paths", stores)), 3))
 }
 
 func runC04Who(c *Ctx) {
